@@ -43,6 +43,8 @@ def main(argv):
         tier = 'quick'
     try:
         repo = Repo()
+        from sa import absint as _absint
+        _absint.REPO = repo
         ctx = report.Ctx(prop, tier, repo)
         mod = importlib.import_module('sa.rules.%s' % prop.lower())
         explanation = mod.run(ctx)
